@@ -82,6 +82,9 @@ func (fc *FnCtx) entryEnv() *Env {
 	for n, v := range fc.params {
 		e.binds[n] = binding{v, fc.paramT[n]}
 	}
+	for n, b := range fc.logical {
+		e.binds[n] = b
+	}
 	if fc.fn != nil {
 		for _, fv := range fc.fn.FreeVars {
 			p, ok := fc.vals[fv]
@@ -163,6 +166,10 @@ func (e *Env) resolve(name string) (binding, bool) {
 	}
 	fc := e.fc
 	if !e.callee {
+		// 0. logical variables of the contract (universally quantified over the whole function)
+		if b, ok := fc.logical[name]; ok {
+			return b, true
+		}
 		// 1. phi of the header
 		if e.header != nil {
 			var found *ssa.Phi
@@ -444,6 +451,7 @@ func (e *Env) eval(ex ast.Expr) sval {
 				if perr != nil {
 					specPanic("pred %s: %v", x.Name, perr)
 				}
+				e.pos = pos // a predicate is transparent for positivity
 				return e.eval(pe)
 			}
 		}
@@ -965,8 +973,8 @@ func (e *Env) evalCall(x *ast.CallExpr) sval {
 			}
 			specPanic("len of %s", a.t)
 		case "forall", "exists":
-			if len(x.Args) != 4 {
-				specPanic("%s(i, lo, hi, body)", id.Name)
+			if len(x.Args) < 4 {
+				specPanic("%s(i, lo, hi, body [, trigger...])", id.Name)
 			}
 			vid, ok := x.Args[0].(*ast.Ident)
 			if !ok {
@@ -1001,6 +1009,22 @@ func (e *Env) evalCall(x *ast.CallExpr) sval {
 			}
 			rng := And(Le(lo, qv), Lt(qv, hi))
 			if id.Name == "forall" {
+				// optional explicit triggers: forall(i, lo, hi, body, t1, t2...) -- a multi-pattern
+				var pats []string
+				for _, ta := range x.Args[4:] {
+					tv := n.eval(ta)
+					switch tv.v.K {
+					case KSlice, KPtr:
+						pats = append(pats, tv.v.Obj().S)
+					case KLeaf:
+						pats = append(pats, tv.v.T.S)
+					default:
+						specPanic("quantifier trigger must be a scalar, pointer or slice expression")
+					}
+				}
+				if len(pats) > 0 {
+					return sval{v: Leaf(Term{fmt.Sprintf("(forall ((%s Int)) (! %s :pattern (%s)))", qv.S, Implies(rng, body.v.T).S, strings.Join(pats, " ")), SBool}), t: boolT}
+				}
 				return sval{v: Leaf(Term{fmt.Sprintf("(forall ((%s Int)) %s)", qv.S, Implies(rng, body.v.T).S), SBool}), t: boolT}
 			}
 			return sval{v: Leaf(Term{fmt.Sprintf("(exists ((%s Int)) %s)", qv.S, And(rng, body.v.T).S), SBool}), t: boolT}
@@ -1257,7 +1281,9 @@ func (e *Env) evalCall(x *ast.CallExpr) sval {
 		// parameterised predicate?
 		if e.pkg != nil {
 			if pd, ok := fc.eng.contracts.Preds[contractKey(e.pkg.Path(), id.Name)]; ok && len(pd.Params) == len(x.Args) && len(pd.Params) > 0 {
+				wasPos := e.evalPos
 				n := e.sub()
+				n.pos = false
 				for i, pn := range pd.Params {
 					a := e.eval(x.Args[i])
 					if a.isConst {
@@ -1269,6 +1295,7 @@ func (e *Env) evalCall(x *ast.CallExpr) sval {
 				if perr != nil {
 					specPanic("pred %s: %v", id.Name, perr)
 				}
+				n.pos = wasPos // a predicate is transparent for positivity
 				return n.eval(pe)
 			}
 		}
